@@ -1,5 +1,5 @@
 From Coq Require Import Lia.
-From CDD Require Import PyStr DocSplit RestDoc MergeProofs.
+From CDD Require Import PyStr DocSplit RestDoc MergeProofs DefaultDocProofs.
 
 (* ================= 1. the scanner loses nothing, for every token list and every string ================= *)
 Definition flat (st : list seg * str) : str := concat (map snd (fst st)) ++ snd st.
@@ -401,22 +401,26 @@ Definition T_return : str := Eval vm_compute in s2l ":return".
 Definition T_rtype : str := Eval vm_compute in s2l ":rtype".
 Definition FENCE : str := [BT; BT; BT].
 
-Definition name_ok (n : str) : bool :=
+Definition name_ok0 (n : str) : bool :=
   negb (Nat.eqb (length n) 0) && forallb (fun c => negb (c =? SP) && negb (c =? COLON)) n && negb (startswith [STAR] n).
+(* "...kwargs" is re-typed by _set_name_and_type: outside the domain *)
+Definition name_ok (n : str) : bool := name_ok0 n && negb (endswith (s2l "kwargs") n).
+Lemma name_ok_0 n : name_ok n = true -> name_ok0 n = true.
+Proof. unfold name_ok. intro H. apply andb_true_iff in H as [H _]. exact H. Qed.
 
 Lemma name_ok_no_sp n : name_ok n = true -> ~ In SP n.
 Proof.
-  unfold name_ok. intros H K. apply andb_true_iff in H as [H _]. apply andb_true_iff in H as [_ H].
+  intros H K. apply name_ok_0 in H. unfold name_ok0 in H. apply andb_true_iff in H as [H _]. apply andb_true_iff in H as [_ H].
   rewrite forallb_forall in H. specialize (H _ K). rewrite N.eqb_refl in H. discriminate.
 Qed.
 Lemma name_ok_no_colon n : name_ok n = true -> ~ In COLON n.
 Proof.
-  unfold name_ok. intros H K. apply andb_true_iff in H as [H _]. apply andb_true_iff in H as [_ H].
+  intros H K. apply name_ok_0 in H. unfold name_ok0 in H. apply andb_true_iff in H as [H _]. apply andb_true_iff in H as [_ H].
   rewrite forallb_forall in H. specialize (H _ K). rewrite N.eqb_refl, andb_false_r in H. discriminate.
 Qed.
 Lemma name_ok_no_colon_b n : name_ok n = true -> no_colon n = true.
 Proof.
-  unfold name_ok, no_colon. intro H. apply andb_true_iff in H as [H _]. apply andb_true_iff in H as [_ H].
+  intro H. apply name_ok_0 in H. unfold name_ok0, no_colon in *. apply andb_true_iff in H as [H _]. apply andb_true_iff in H as [_ H].
   rewrite forallb_forall in *. intros c Hc. specialize (H c Hc). apply andb_true_iff in H as [_ H]. exact H.
 Qed.
 
@@ -699,7 +703,7 @@ Qed.
 Definition param_ok (p : str * pentry) : bool := name_ok (fst p) && entry_ok (snd p).
 
 Lemma name_ok_not_star n : name_ok n = true -> startswith [STAR] n = false.
-Proof. unfold name_ok. intro H. apply andb_true_iff in H as [_ H]. apply negb_true_iff in H. exact H. Qed.
+Proof. intro H. apply name_ok_0 in H. unfold name_ok0 in H. apply andb_true_iff in H as [_ H]. apply negb_true_iff in H. exact H. Qed.
 
 Lemma fold_params : forall ps s fs, blank fs = true -> forallb param_ok ps = true -> NoDup (map fst ps) ->
   (forall n0 e0, st_cur s = Some (n0, e0) -> ~ In n0 (map fst ps)) ->
@@ -794,3 +798,262 @@ Proof.
   - destruct (fold_params ps s0 [NL] eq_refl Hp Hnd) as [A [B C]]; [intros ? ? E; discriminate E | intros n _ K; exact K |].
     rewrite A, B, C. reflexivity.
 Qed.
+
+(* ================= 8. the emitter writes the canonical text ================= *)
+Definition tail_ok (s : str) : bool := head_ok (rev s).
+
+Lemma tail_ok_app a b : b <> [] -> tail_ok (a ++ b) = tail_ok b.
+Proof.
+  intro H. unfold tail_ok. rewrite rev_app_distr. destruct (rev b) as [|c r] eqn:E; [|reflexivity].
+  exfalso. apply H. rewrite <- (rev_involutive b), E. reflexivity.
+Qed.
+
+Lemma head_ok_not_space c r : head_ok (c :: r) = true -> is_space c = false.
+Proof. cbn. intro H. apply negb_true_iff in H. exact H. Qed.
+Lemma nonspace_not_nl c : is_space c = false -> (c =? NL) = false.
+Proof. intro H. destruct (N.eqb_spec c NL) as [->|]; [vm_compute in H; discriminate | reflexivity]. Qed.
+
+Lemma count_nls_head_ok s : head_ok s = true -> count_nls_prefix s = O.
+Proof. destruct s as [|c r]; [discriminate|]. intro H. apply head_ok_not_space in H. cbn. rewrite (nonspace_not_nl c H), H. reflexivity. Qed.
+
+Lemma rev_tl_head s : (2 <= length s)%nat -> exists r, rev (tl s) = (last s NL) :: r.
+Proof.
+  intro H. destruct s as [|a s]; [cbn in H; lia|]. cbn [tl]. destruct (rev s) as [|c r] eqn:E.
+  - assert (s = []) by (rewrite <- (rev_involutive s), E; reflexivity). subst. cbn in H. lia.
+  - exists r. f_equal. assert (s = rev r ++ [c]) by (rewrite <- (rev_involutive s), E; reflexivity). subst s.
+    change (a :: rev r ++ [c]) with ((a :: rev r) ++ [c]). rewrite last_last. reflexivity.
+Qed.
+
+Lemma tail_ok_last s : tail_ok s = true -> is_space (last s NL) = false.
+Proof.
+  unfold tail_ok. destruct (rev s) as [|c r] eqn:E; [discriminate|]. intro H. apply head_ok_not_space in H.
+  assert (s = rev r ++ [c]) by (rewrite <- (rev_involutive s), E; reflexivity). subst s. rewrite last_last. exact H.
+Qed.
+
+Lemma nls_end_tail_ok s : tail_ok s = true -> num_of_nls s true = O.
+Proof.
+  intro H. unfold num_of_nls. destruct (le_lt_dec 2 (length s)) as [L|L].
+  - destruct (rev_tl_head s L) as [r E]. rewrite E. pose proof (tail_ok_last s H) as K. cbn. rewrite (nonspace_not_nl _ K), K. reflexivity.
+  - destruct s as [|a [|b s]]; [reflexivity | reflexivity | cbn in L; lia].
+Qed.
+
+Lemma nls_end_one s : tail_ok s = true -> s <> [] -> num_of_nls (s ++ [NL]) true = 1%nat.
+Proof.
+  intros H Hne. unfold num_of_nls. destruct s as [|a s]; [contradiction|]. cbn [app tl]. rewrite rev_app_distr. cbn [rev app].
+  cbn [count_nls_prefix]. rewrite N.eqb_refl. f_equal.
+  change (count_nls_prefix (rev s)) with (count_nls_prefix (rev (tl (a :: s)))). apply (nls_end_tail_ok (a :: s) H).
+Qed.
+
+Lemma indent_nil : forall s b, indent_aux [] s b = s.
+Proof. induction s as [|c r IH]; intro b; cbn; [reflexivity|]. destruct b; cbn; rewrite IH; reflexivity. Qed.
+
+Lemma last_opt_app_nl (s : str) : last_opt (s ++ [NL]) = Some NL.
+Proof. apply last_opt_app_single. Qed.
+
+(* the re-assembly of a clean header and an argument section that starts with [k] newlines (k = 0, 1) then a non-blank
+   character, and ends with a non-blank character or exactly one newline *)
+Lemma haf_clean doc ar :
+  clean doc = true -> head_ok ar = true -> (tail_ok ar = true \/ exists x, ar = x ++ [NL] /\ tail_ok x = true /\ x <> []) ->
+  header_args_footer_to_str doc ar [] = doc ++ [NL; NL] ++ ar ++ (if tail_ok ar then [NL] else []).
+Proof.
+  intros Hd Ha He. destruct (clean_parts doc Hd) as [D1 [D2 _]].
+  assert (Hen : num_of_nls doc true = O) by (apply nls_end_tail_ok; exact D2).
+  assert (S0 : num_of_nls ar false = O) by (apply count_nls_head_ok, Ha).
+  assert (EN : (tail_ok ar = true /\ num_of_nls ar true = O) \/ (tail_ok ar = false /\ num_of_nls ar true = 1%nat)).
+  { destruct He as [T|[x [-> [T Hx]]]]; [left; split; [exact T | apply nls_end_tail_ok, T]|].
+    right. split; [rewrite tail_ok_app by discriminate; reflexivity | apply nls_end_one; assumption]. }
+  assert (LO : forall tl0, tl0 = (if Nat.eqb (num_of_nls ar true) 0 then [NL] else []) -> last_opt ([NL; NL] ++ ar ++ tl0) = Some NL).
+  { intros tl0 ->. destruct EN as [[T E]|[T E]]; rewrite E; cbn [Nat.eqb].
+    - rewrite !app_assoc. apply last_opt_app_nl.
+    - rewrite app_nil_r. destruct He as [T'|[x [Ex _]]]; [congruence|]. rewrite Ex, app_assoc. apply last_opt_app_nl. }
+  assert (T1 : (if Nat.eqb (num_of_nls ar true) 0 then [NL] else []) = if tail_ok ar then [NL] else []).
+  { destruct EN as [[T E]|[T E]]; rewrite T, E; reflexivity. }
+  assert (CL : count_leading_space doc = O).
+  { destruct doc as [|d0 dr]; [discriminate|]. cbn. rewrite (head_ok_not_space d0 dr D1). reflexivity. }
+  destruct doc as [|d0 dr]; [discriminate|]. destruct ar as [|a0 arr]; [discriminate|].
+  unfold header_args_footer_to_str. cbv iota beta zeta.
+  rewrite S0, Hen. cbn [length Nat.eqb Nat.ltb Nat.leb negb andb nls repeat].
+  set (tailnl := if Nat.eqb (num_of_nls (a0 :: arr) true) 0 then [NL] else []) in *.
+  assert (A1s : num_of_nls ([NL; NL] ++ (a0 :: arr) ++ tailnl) false = 2%nat).
+  { unfold num_of_nls. cbn [app count_nls_prefix]. rewrite N.eqb_refl. do 2 f_equal.
+    apply head_ok_not_space in Ha. rewrite (nonspace_not_nl a0 Ha), Ha. reflexivity. }
+  change ([NL; NL] ++ (a0 :: arr) ++ tailnl) with (NL :: NL :: a0 :: arr ++ tailnl) in *. cbv iota beta.
+  rewrite A1s, CL. cbn [firstn count_char Nat.sub count_leading_space].
+  replace (is_space NL) with true by reflexivity. cbn [Nat.eqb spaces repeat]. unfold indent. rewrite indent_nil, app_nil_r.
+  change (NL :: NL :: a0 :: arr ++ tailnl) with ([NL; NL] ++ (a0 :: arr) ++ tailnl).
+  rewrite (LO tailnl eq_refl), N.eqb_refl. cbn [app length Nat.ltb Nat.leb andb Nat.add Nat.eqb orb nls repeat].
+  cbn [negb andb]. rewrite !app_nil_r. subst tailnl. rewrite T1. reflexivity.
+Qed.
+
+Lemma key_param n rest : [COLON] ++ (s2l "param " ++ n) ++ s2l ": " ++ rest = T_param ++ named_body n rest.
+Proof. unfold named_body. rewrite <- app_assoc. reflexivity. Qed.
+Lemma key_type n rest : [COLON] ++ (s2l "type " ++ n) ++ s2l ": ```" ++ rest = T_type ++ named_body n (FENCE ++ rest).
+Proof. unfold named_body. rewrite <- app_assoc. reflexivity. Qed.
+Lemma key_return rest : [COLON] ++ s2l "return" ++ s2l ": " ++ rest = T_return ++ COLON :: SP :: rest.
+Proof. reflexivity. Qed.
+Lemma key_rtype rest : [COLON] ++ s2l "rtype" ++ s2l ": ```" ++ rest = T_rtype ++ COLON :: SP :: FENCE ++ rest.
+Proof. reflexivity. Qed.
+
+Lemma clean_nonempty d : clean d = true -> nonempty (Some d) = Some d /\ lstrip d = d.
+Proof.
+  intro H. destruct (clean_parts d H) as [D1 _]. split; [destruct d; [discriminate | reflexivity] | apply lstrip_head_ok, D1].
+Qed.
+Lemma typ_ok_nonempty t : typ_ok t = true -> nonempty (Some t) = Some t.
+Proof. unfold typ_ok. intro H. destruct t; [discriminate | reflexivity]. Qed.
+
+Lemma named_body_app n a b : named_body n (a ++ b) = named_body n a ++ b.
+Proof. unfold named_body. cbn [app]. f_equal. rewrite <- app_assoc. reflexivity. Qed.
+
+Lemma block_text n e sep : entry_ok e = true -> concat (map cat (param_lines n e sep)) = emit_param true (n, e) ++ sep.
+Proof.
+  intro He. destruct e as [od ot]. unfold entry_ok, param_lines, emit_param, lines_of in *. cbn [pe_doc pe_typ fst snd] in *.
+  destruct od as [d|], ot as [t|]; try discriminate; try (apply andb_true_iff in He as [Hd Ht]);
+    repeat match goal with
+           | H : clean ?d = true |- _ => destruct (clean_nonempty d H) as [-> ->]; clear H
+           | H : typ_ok ?t = true |- _ => rewrite (typ_ok_nonempty t H); clear H
+           end;
+    rewrite ?key_param, ?key_type; change (s2l "```") with FENCE.
+  all: cbn [nonempty map concat join app]; unfold cat, fenced; cbn [fst snd]; rewrite ?app_nil_r, ?named_body_app.
+  all: repeat (progress (cbn [app]; rewrite <- ?app_assoc)); reflexivity.
+Qed.
+
+Lemma ret_text e sep : entry_ok e = true -> concat (map cat (ret_lines e sep)) = emit_return true e ++ sep.
+Proof.
+  intro He. destruct e as [od ot]. unfold entry_ok, ret_lines, emit_return, lines_of in *. cbn [pe_doc pe_typ fst snd] in *.
+  destruct od as [d|], ot as [t|]; try discriminate; try (apply andb_true_iff in He as [Hd Ht]);
+    repeat match goal with
+           | H : clean ?d = true |- _ => destruct (clean_nonempty d H) as [-> ->]; clear H
+           | H : typ_ok ?t = true |- _ => rewrite (typ_ok_nonempty t H); clear H
+           end;
+    rewrite ?key_return, ?key_rtype; change (s2l "```") with FENCE.
+  all: cbn [nonempty map concat join app]; unfold cat, fenced; cbn [fst snd]; rewrite ?app_nil_r.
+  all: repeat (progress (cbn [app]; rewrite <- ?app_assoc)); reflexivity.
+Qed.
+
+Lemma join2_cons (x y : str) r : join [NL; NL] (x :: y :: r) = x ++ [NL; NL] ++ join [NL; NL] (y :: r).
+Proof. reflexivity. Qed.
+
+Lemma params_text : forall ps fs, forallb param_ok ps = true -> ps <> [] ->
+  concat (map cat (lines_params ps fs)) = join [NL; NL] (map (emit_param true) ps) ++ fs.
+Proof.
+  induction ps as [|[n e] r IH]; intros fs Hok Hne; [contradiction|].
+  cbn [forallb] in Hok. apply andb_true_iff in Hok as [Hp Hok]. unfold param_ok in Hp. cbn [fst snd] in Hp. apply andb_true_iff in Hp as [_ He].
+  destruct r as [|p2 r2]; [cbn [lines_params map join]; apply block_text, He|].
+  change (lines_params ((n, e) :: p2 :: r2) fs) with (param_lines n e [NL; NL] ++ lines_params (p2 :: r2) fs).
+  rewrite map_app, concat_app, block_text by exact He. rewrite IH by (try exact Hok; discriminate).
+  cbn [map]. rewrite join2_cons, <- !app_assoc. reflexivity.
+Qed.
+
+Lemma last_opt_rev (s : str) : last_opt s = match rev s with c :: _ => Some c | [] => None end.
+Proof.
+  destruct (rev s) as [|c r] eqn:E.
+  - assert (s = []) by (rewrite <- (rev_involutive s), E; reflexivity). subst. reflexivity.
+  - assert (s = rev r ++ [c]) by (rewrite <- (rev_involutive s), E; reflexivity). subst. apply last_opt_app_single.
+Qed.
+Lemma tail_ok_not_ends_nl s : tail_ok s = true -> ends_nl s = false.
+Proof.
+  unfold tail_ok, ends_nl. rewrite last_opt_rev. destruct (rev s) as [|c r]; [discriminate|]. intro H.
+  apply head_ok_not_space in H. apply nonspace_not_nl, H.
+Qed.
+
+Lemma tail_ok_app_r a b : tail_ok b = true -> tail_ok (a ++ b) = true.
+Proof. intro H. rewrite tail_ok_app; [exact H|]. intro E. subst. discriminate. Qed.
+Lemma tail_ok_cons_r c s : tail_ok s = true -> tail_ok (c :: s) = true.
+Proof. apply (tail_ok_app_r [c] s). Qed.
+
+(* a block of lines starts with a colon and ends with the last character of a description or a back-tick *)
+Lemma lines_block_ok key key_typ e : entry_ok e = true ->
+  let b := join [NL] (lines_of key key_typ true e) in head_ok b = true /\ tail_ok b = true.
+Proof.
+  intro He. destruct e as [od ot]. unfold entry_ok, lines_of in *. cbn [pe_doc pe_typ] in *.
+  destruct od as [d|], ot as [t|]; try discriminate; try (apply andb_true_iff in He as [Hd Ht]);
+    repeat match goal with
+           | H : clean ?d = true |- _ => destruct (clean_nonempty d H) as [-> ->]; pose proof (proj1 (proj2 (clean_parts d H))) as T; clear H
+           | H : typ_ok ?t = true |- _ => rewrite (typ_ok_nonempty t H); clear H
+           end;
+    cbn [nonempty app join]; split; try reflexivity;
+    repeat first [exact T | reflexivity | apply tail_ok_cons_r | apply tail_ok_app_r].
+Qed.
+
+Lemma head_ok_app a b : head_ok a = true -> head_ok (a ++ b) = true.
+Proof. destruct a; [discriminate | intro H; exact H]. Qed.
+Lemma head_ok_ne a : head_ok a = true -> a <> [].
+Proof. destruct a; [discriminate | discriminate]. Qed.
+
+Lemma params_block_ok : forall ps, forallb param_ok ps = true -> ps <> [] ->
+  let P := join [NL; NL] (map (emit_param true) ps) in head_ok P = true /\ tail_ok P = true.
+Proof.
+  induction ps as [|[n e] r IH]; intros Hok Hne; [contradiction|].
+  cbn [forallb] in Hok. apply andb_true_iff in Hok as [Hp Hok]. unfold param_ok in Hp. cbn [fst snd] in Hp. apply andb_true_iff in Hp as [_ He].
+  destruct (lines_block_ok (s2l "param " ++ n) (s2l "type " ++ n) e He) as [H1 H2].
+  destruct r as [|p2 r2]; [cbn [map join]; split; assumption|].
+  cbn [map]. rewrite join2_cons. destruct (IH Hok ltac:(discriminate)) as [I1 I2]. cbn zeta in *. split.
+  - apply head_ok_app, H1.
+  - rewrite tail_ok_app by (apply app_cons_not_nil || (intro K; destruct (app_eq_nil _ _ K); discriminate)).
+    rewrite tail_ok_app by (apply head_ok_ne, I1). exact I2.
+Qed.
+
+Lemma count_char_app c a b : count_char c (a ++ b) = (count_char c a + count_char c b)%nat.
+Proof. induction a as [|x a IH]; cbn; [reflexivity|]. destruct (x =? c); rewrite IH; reflexivity. Qed.
+
+Lemma isspace_head_ok s : head_ok s = true -> isspace s = false.
+Proof. destruct s as [|c r]; [discriminate|]. intro H. apply head_ok_not_space in H. cbn. rewrite H. reflexivity. Qed.
+
+(* the outer wrapper of emit_rest returns the candidate when it has a non-blank first character and a line break *)
+Lemma emit_wrapper cand : head_ok cand = true -> Nat.eqb (count_char NL cand) 0 = false ->
+  match cand with
+  | [] => []
+  | c :: _ => if isspace cand then [] else if Nat.eqb (count_char NL cand) 0 then (if c =? NL then cand else NL :: cand) else cand
+  end = cand.
+Proof. intros H1 H2. destruct cand as [|c r]; [discriminate|]. rewrite (isspace_head_ok _ H1), H2. reflexivity. Qed.
+
+Theorem emit_is_render doc ps ret :
+  clean doc = true -> forallb param_ok ps = true -> ps <> [] -> ret_ok ret = true ->
+  emit_rest true doc ps ret = render doc ps ret.
+Proof.
+  intros Hd Hp Hne Hr. destruct (clean_parts doc Hd) as [D1 [D2 _]].
+  destruct (params_block_ok ps Hp Hne) as [P1 P2]. cbn zeta in P1, P2.
+  set (P := join [NL; NL] (map (emit_param true) ps)) in *.
+  assert (Pne : Nat.eqb (length P) 0 = false) by (destruct P; [discriminate | reflexivity]).
+  assert (Ppe : num_of_nls P true = O) by (apply nls_end_tail_ok, P2).
+  assert (W : forall body, emit_rest true doc ps ret = doc ++ [NL; NL] ++ body ->
+              header_args_footer_to_str doc (if isspace (args_returns true ps ret) then [] else args_returns true ps ret) [] = doc ++ [NL; NL] ++ body ->
+              True) by auto. clear W.
+  unfold emit_rest, render, all_lines. destruct ret as [r|].
+  - (* parameters and a return entry *)
+    cbn [ret_ok] in Hr. destruct (lines_block_ok (s2l "return") (s2l "rtype") r Hr) as [R1 R2]. cbn zeta in R1, R2.
+    fold (emit_return true r) in R1, R2. set (R := emit_return true r) in *.
+    assert (Rne : R <> []) by (apply head_ok_ne, R1).
+    assert (AR : args_returns true ps (Some r) = (P ++ [NL; NL] ++ R) ++ [NL]).
+    { unfold args_returns. fold P. fold R. destruct R as [|r0 rr] eqn:ER; [contradiction|]. rewrite <- ER in *.
+      rewrite Pne, (tail_ok_not_ends_nl P P2). cbn [orb]. rewrite Ppe.
+      assert (L1 : Nat.eqb (length ([NL] ++ R)) 0 = false) by reflexivity. rewrite L1.
+      assert (RE : num_of_nls ([NL] ++ R) true = O) by (apply nls_end_tail_ok, tail_ok_app_r, R2). rewrite RE.
+      cbn [Nat.ltb Nat.leb negb andb orb Nat.eqb]. rewrite <- !app_assoc. reflexivity. }
+    rewrite AR.
+    assert (X2 : tail_ok (P ++ [NL; NL] ++ R) = true) by (do 2 apply tail_ok_app_r; exact R2).
+    assert (X1 : head_ok ((P ++ [NL; NL] ++ R) ++ [NL]) = true) by (rewrite <- app_assoc; apply head_ok_app, P1).
+    rewrite (isspace_head_ok _ X1).
+    rewrite (haf_clean doc ((P ++ [NL; NL] ++ R) ++ [NL]) Hd X1)
+      by (right; exists (P ++ [NL; NL] ++ R); split; [reflexivity | split; [exact X2 | intro K; apply app_eq_nil in K as [K _]; rewrite K in Pne; discriminate]]).
+    rewrite tail_ok_app by discriminate. replace (tail_ok [NL]) with false by reflexivity. rewrite app_nil_r.
+    rewrite emit_wrapper.
+    + rewrite map_app, concat_app, (params_text ps [NL; NL] Hp Hne), (ret_text r [NL] Hr). fold P. fold R.
+      rewrite <- !app_assoc. reflexivity.
+    + apply head_ok_app, D1.
+    + rewrite !count_char_app. cbn [count_char]. rewrite N.eqb_refl. destruct (count_char NL doc); reflexivity.
+  - (* parameters only *)
+    assert (AR : args_returns true ps None = P).
+    { unfold args_returns. fold P. rewrite Ppe. cbn [length Nat.eqb negb andb Nat.ltb Nat.leb orb]. rewrite !app_nil_r. reflexivity. }
+    rewrite AR, (isspace_head_ok _ P1), (haf_clean doc P Hd P1) by (left; exact P2). rewrite P2.
+    rewrite emit_wrapper.
+    + rewrite (params_text ps [NL] Hp Hne). fold P. rewrite <- !app_assoc. reflexivity.
+    + apply head_ok_app, D1.
+    + rewrite !count_char_app. cbn [count_char]. rewrite N.eqb_refl. destruct (count_char NL doc); reflexivity.
+Qed.
+
+(* ================= 9. the round trip ================= *)
+Theorem rest_roundtrip doc ps ret :
+  clean doc = true -> forallb param_ok ps = true -> NoDup (map fst ps) -> ps <> [] -> ret_ok ret = true ->
+  parse_rest (emit_rest true doc ps ret) = {| p_doc := doc; p_params := ps; p_ret := ret |}.
+Proof. intros Hd Hp Hnd Hne Hr. rewrite emit_is_render by assumption. apply parse_render; auto. Qed.
